@@ -226,3 +226,32 @@ def standin_listpair(prop, tier, seed, scratch, root):
                               'message': 'typed command list pairing deviates: ' + rr.get('output', '')[-400:], 'where': 'mpd_client/src/commands/command_list.rs', 'rendered': rr.get('output', ''),
                               'input': {'probe': 'see output'}, 'replayed': rr, 'replay_bin': 'list_pair', 'replay_args': []})
     return row
+
+
+def standin_filtersearch(prop, tier, seed, scratch, root):
+    """random filter trees x value strings through the real builder/renderer and ports of MPD's tokenizer + filter parser"""
+    import replay as RP, json
+    n = 30000 if tier != 'thorough' else 600000
+    # value classes that are open known findings are left to their witnesses (listed in the bound)
+    import decide
+    kf = decide.load_known()
+    skip = ''.join(sorted({k.get('skip_chars', '') for k in kf.get('findings', []) if k['property'] == 'C11' and k.get('status', 'open') == 'open'}))
+    rr = RP.run_bin('c11_filter', scratch, ['search', str(1 + max(seed, 0)), str(n)], timeout=1500, env={'VX_SKIP_CHARS': skip})
+    row = {'function': 'Filter::{new,tag,tag_exists,tag_absent,negate,and,not}, <Filter as Argument>::render, Find::command, Command builder, end to end',
+           'engine': 'native random differential search against Rust ports of MPD Tokenizer and SongFilter::ParseExpression (replay/src/bin/c11_filter.rs, replay/src/mpdfilter.rs)',
+           'label': 'bounded', 'cases': n, 'violations': [],
+           'bound': '%d random trees (depth <= 3, NOT/AND mixes, all five operators, exists/absent shorthands) x 16 value strings (quotes of both kinds, backslashes, parentheses, AND, blanks, empty, non-ASCII); values containing %r skipped (open known findings); seed %d' % (n, skip, 1 + max(seed, 0))}
+    if not rr.get('ran'):
+        row['undecided'] = rr.get('reason', 'did not run'); return row
+    try:
+        j = json.loads(rr.get('full_output', rr['output']).strip().split('\n')[-1])
+    except Exception:
+        row['undecided'] = 'output unreadable: ' + rr.get('output', '')[-300:]; return row
+    if not rr['fails']:
+        row['result'] = 'no deviation'; row['distinct_nontrivial'] = j.get('cases', 0); return row
+    row['result'] = 'DEVIATION'; row['deviation'] = j
+    rr.pop('full_output', None)
+    row['violations'].append({'props': ['C11'], 'ob': 'filter.search', 'fn': 'Filter rendering', 'message': 'the server understands a different filter: ' + j.get('why', ''), 'where': 'mpd_client/src/filter.rs',
+                              'rendered': json.dumps(j)[:3000], 'input': {'tree': j.get('tree'), 'seed': j.get('seed'), 'case': j.get('case')}, 'replayed': rr, 'replay_bin': 'c11_filter',
+                              'replay_args': ['search', str(1 + max(seed, 0)), str(n)]})
+    return row
